@@ -245,6 +245,28 @@ def run(ctx):
             raw = D.load_dat_file(fn, order)
             ok = all(np.allclose(np.asarray(raw[nm]), ref[nm], rtol=1e-15, atol=0) for nm in order)
             ctx.check("momenta file round trip", ok, desc, mechanism="CalAngleData.savetxt -> load_dat_file")
+            # the same writer with the charge column saved beside the momenta (save_charge=True): file names with an extension, without
+            # one, and inside a directory whose name contains a dot - the momentum file must still read back as written
+            charges = rng.choice([-1.0, 1.0], n)
+            dwc = dict(data)
+            dwc["charge_conjugation"] = charges
+            for sub_, base_ in (("", "cadq_%d.dat" % i), ("", "cadq_noext_%d" % i), ("run.v%d" % i, "cadq")):
+                dd_ = os.path.join(wd, sub_) if sub_ else wd
+                os.makedirs(dd_, exist_ok=True)
+                fnq = os.path.join(dd_, base_)
+                before_files = set(os.listdir(dd_))
+                CalAngleData(dwc).savetxt(fnq, order=order, save_charge=True)
+                try:
+                    raw = D.load_dat_file(fnq, order)
+                    okq = all(np.asarray(raw[nm]).shape == ref[nm].shape and np.allclose(np.asarray(raw[nm]), ref[nm], rtol=1e-15, atol=0) for nm in order)
+                except Exception:
+                    okq = False  # the momentum file no longer holds (n x particles) four-vectors
+                new_files = sorted(set(os.listdir(dd_)) - before_files - {base_})
+                okc = len(new_files) == 1 and np.array_equal(np.loadtxt(os.path.join(dd_, new_files[0])).reshape((-1,)), charges)
+                kind_ = "name with extension" if base_.endswith(".dat") else ("name without extension" if not sub_ else "directory name with a dot")
+                ctx.check("momenta file round trip", bool(okq and okc), lambda: dict(desc(), file=os.path.relpath(fnq, wd), momenta_read_back=bool(okq), charge_file=new_files,
+                                                                                  charge_file_ok=bool(okc)),
+                          mechanism="CalAngleData.savetxt(save_charge=True) -> load_dat_file (%s)" % kind_)
             # multi-file input: the particles are distributed over several files (k particles in the first, the rest in the second)
             arr = np.stack([ps[j] for j in perm]).transpose((1, 0, 2))  # (n, nb, 4)
             if n >= 5:
